@@ -42,34 +42,24 @@ var strFuncs = map[string]LGFunction{
 
 func strByte(L *LState) int {
 	str := L.CheckString(1)
-	start := L.OptInt(2, 1) - 1
-	end := L.OptInt(3, -1)
 	l := len(str)
-	if start < 0 {
-		start = l + start + 1
+	posi := L.OptInt(2, 1)
+	if posi < 0 {
+		posi = intMax(l+posi+1, 0)
 	}
-	if end < 0 {
-		end = l + end + 1
+	pose := L.OptInt(3, posi)
+	if pose < 0 {
+		pose = intMax(l+pose+1, 0)
 	}
-
-	if L.GetTop() == 2 {
-		if start < 0 || start >= l {
-			return 0
-		}
-		L.Push(LNumber(str[start]))
-		return 1
-	}
-
-	start = intMax(start, 0)
-	end = intMin(end, l)
-	if end < 0 || end <= start || start >= l {
+	posi = intMax(posi, 1)
+	pose = intMin(pose, l)
+	if posi > pose {
 		return 0
 	}
-
-	for i := start; i < end; i++ {
+	for i := posi - 1; i < pose; i++ {
 		L.Push(LNumber(str[i]))
 	}
-	return end - start
+	return pose - posi + 1
 }
 
 func strChar(L *LState) int {
